@@ -88,7 +88,7 @@ theorem closure_sound {v cap} {guide : Guide} (ss : List State) :
     | cons f fs =>
       simp only [closure] at hx
       have hfresh : ∀ y ∈ (List.foldl (fun acc s => (tauSucc v cap guide s).foldl insertNew acc) [] (f :: fs)).filter
-          (fun s => !seen.contains s), ∃ s ∈ ss, TauReach v cap s y := by
+          (fun s => !known seen s), ∃ s ∈ ss, TauReach v cap s y := by
         intro y hy
         have hy' := (List.mem_filter.mp hy).1
         rcases mem_next hy' with h | ⟨s, hsf, hys⟩
